@@ -169,7 +169,14 @@ func c20Recv(w *W) {
 			w.Failf("HARNESS/send", "%v", err)
 			return
 		}
-		w.Sleep(time.Duration(1+w.Choose(simrt.SProg, 400)) * time.Millisecond)
+		pace := 400
+		if topics != nil {
+			// (macat ends one receive timeout - at least 1 s - after the last
+			// message it *received*; publications outside its subscriptions do
+			// not count, so the whole series stays below that)
+			pace = 200
+		}
+		w.Sleep(time.Duration(1+w.Choose(simrt.SProg, pace)) * time.Millisecond)
 		w.Settle()
 		last = w.Now()
 		_ = last
